@@ -28,7 +28,7 @@ def rand_table(rng, n):
         elif r < 0.5:
             t.append(['z', rng.randrange(len(pipelib.ZOO))])
         elif r < 0.62:
-            t.append(['it', []])
+            t.append(['it', [], rng.choice(['gen', 'map', 'cls'])])
         else:
             items = []
             for _ in range(rng.randint(1, 4)):
@@ -40,7 +40,7 @@ def rand_table(rng, n):
                 else:
                     uid += 1
                     items.append(uid)
-            t.append(['it', items])
+            t.append(['it', items, rng.choice(['gen', 'gen', 'map', 'cls'])])
     return t
 
 
@@ -149,6 +149,8 @@ def check(ctx):
     for c, r, m in c01.execute(gen_cases(ctx)):
         with ctx.guard(c):
             judge(ctx, c, r, m)
+    from harness.props import multistream
+    multistream.run(ctx, ctx.scale(50, 500), {'outputs', 'draws'}, 'multi-C10', parallel=False, iters=True)
 
 
 def replay(ctx, data):
